@@ -103,7 +103,9 @@ class W:
         if with_pdo:
             s[(0x1400, 0)] = b"\x02"
             s[(0x1400, 1)] = d.rpdo_cob.to_bytes(4, "little")
-            s[(0x1400, 2)] = b"\xff"
+            # event-driven RPDO: 255 (profile specific) or 254 (manufacturer specific) - both are sent on change, not on SYNC
+            rtype = b"\xff" if (self.nid + map_mode) % 2 else b"\xfe"
+            s[(0x1400, 2)] = rtype
             s[(0x1800, 0)] = b"\x02"
             s[(0x1800, 1)] = d.tpdo_cob.to_bytes(4, "little")
             s[(0x1800, 2)] = b"\xff" if transport == "pdo-event" else b"\x01"
@@ -113,7 +115,7 @@ class W:
             if map_mode == 2:
                 s[(0x1401, 0)] = b"\x02"
                 s[(0x1401, 1)] = d.rpdo2_cob.to_bytes(4, "little")
-                s[(0x1401, 2)] = b"\xff"
+                s[(0x1401, 2)] = rtype
                 s[(0x1801, 0)] = b"\x02"
                 s[(0x1801, 1)] = d.tpdo2_cob.to_bytes(4, "little")
                 s[(0x1801, 2)] = s[(0x1800, 2)]
